@@ -24,6 +24,15 @@ type c02Case struct {
 	Short bool    `json:"short,omitempty"`
 }
 
+// detailsText returns Details.String(), or a marker if it panics.
+func detailsText(in model.Instruction) (txt string) {
+	p, _ := eng.Catch(func() { txt = in.Details.String() })
+	if p != nil {
+		return fmt.Sprintf("<String() panics: %v>", p)
+	}
+	return txt
+}
+
 func showEffects(in model.Instruction) string {
 	var sb strings.Builder
 	for _, e := range in.Effects {
@@ -83,7 +92,7 @@ func c02Word(ps *riscv.Parser, c c02Case) (*eng.Fail, bool) {
 		if p != nil {
 			return &eng.Fail{Sig: "trailing panic " + eng.PanicSite(stack), What: fmt.Sprintf("Parse(%08x+%s) panics: %v", c.Word, c.Trail, p), Case: c}, true
 		}
-		if err2 != nil || in2.Details.Name() != in.Details.Name() || in2.Details.String() != in.Details.String() ||
+		if err2 != nil || in2.Details.Name() != in.Details.Name() || detailsText(in2) != detailsText(in) ||
 			showEffects(in2) != showEffects(in) || in2.ByteLen != in.ByteLen || in2.Type != in.Type {
 			return &eng.Fail{Sig: "trailing-bytes-influence", What: fmt.Sprintf("%s: trailing bytes %s change the decoding of %08x", c.Cfg, c.Trail, c.Word), Case: c}, true
 		}
